@@ -129,6 +129,24 @@ def h_controller(sk, N, seed, support_mask):
                 Z = S.Sum(w)          # = P(a | node belief) > 0
                 S.check('controller.next_agentstate:Bayes-filter-over-nodes(conditioned-on-the-action,then-node-transition);normalised', S.And(
                     [S.eq(nag[m] * Z, w[m]) for m in range(N)] + [S.eq(S.Sum(nag[m] for m in range(N)) * Z, Z)]))
+        # the two methods are functions of their own arguments: a filter step for ANOTHER node belief (uniform over the nodes) right after the action
+        # distribution of this one (an enumeration of histories calls them in any order), and the other way round
+        ag2_l = [Fraction(1, N)] * N
+        ag2 = conv([S.const(x) if S.symbolic() else float(x) for x in ag2_l])
+        for j, a in enumerate(al):
+            for l, o in enumerate(ol):
+                w2 = [S.Sum(ag2_l[n] * psi[n][j] * eta[n][j][l][m] for n in range(N)) for m in range(N)]
+                Z2 = S.Sum(w2)
+                if not M._dc(S.lt(0, Z2)):
+                    continue
+                c.action_dist(ag)
+                nag2 = c.next_agentstate(ag2, a, o)
+                c.action_dist(ag2)
+                nag1 = c.next_agentstate(ag, a, o)
+                w = [S.Sum(ag_l[n] * psi[n][j] * eta[n][j][l][m] for n in range(N)) for m in range(N)]
+                Z = S.Sum(w)
+                S.check('controller.next_agentstate:depends-on-its-own-arguments-only(called-after-action_dist-of-another-node-belief)', S.And(
+                    [S.eq(nag2[m] * Z2, w2[m]) for m in range(N)] + [S.eq(nag1[m] * Z, w[m]) for m in range(N)]))
 
 
 def h_run_controller(sk, N, seed, cap, given_state):
